@@ -414,6 +414,7 @@ func (c *StructCode) ToOpcode(ctx *compileContext) Opcodes {
 	if c.isRecursive {
 		recursive := newRecursiveCode(ctx, c.typ, &CompiledCode{})
 		recursive.Type = c.typ
+		ctx.recursiveKeys[recursive] = structCodeKey{uintptr(unsafe.Pointer(c.typ)), c.isPtr}
 		ctx.incIndex()
 		*ctx.recursiveCodes = append(*ctx.recursiveCodes, recursive)
 		return Opcodes{recursive}
@@ -473,7 +474,7 @@ func (c *StructCode) ToOpcode(ctx *compileContext) Opcodes {
 		ctx.incIndex()
 	}
 	ctx.decIndent()
-	ctx.structTypeToCodes[uintptr(unsafe.Pointer(c.typ))] = codes
+	ctx.structTypeToCodes[structCodeKey{uintptr(unsafe.Pointer(c.typ)), c.isPtr}] = codes
 	return codes
 }
 
@@ -484,6 +485,7 @@ func (c *StructCode) ToAnonymousOpcode(ctx *compileContext) Opcodes {
 	if c.isRecursive {
 		recursive := newRecursiveCode(ctx, c.typ, &CompiledCode{})
 		recursive.Type = c.typ
+		ctx.recursiveKeys[recursive] = structCodeKey{uintptr(unsafe.Pointer(c.typ)), c.isPtr}
 		ctx.incIndex()
 		*ctx.recursiveCodes = append(*ctx.recursiveCodes, recursive)
 		return Opcodes{recursive}
